@@ -141,7 +141,87 @@ def finish(ex, p, opn, x, y, num, den, both_exact, node):
         return VMpf(num, den, err=None)
     if mode == 'hook':
         return ex.ctx.opts['mpf_inexact_hook'](ex, p, opn, x, y, num, den, node)
+    if mode == 'bound':
+        return bound_result(ex, p, opn, x, y, num, den, node)
     raise EngineError(f'inexact mpf operation {opn} at line {line} (no error model selected)')
+
+
+# ------------------------------------------------------------------------------ forward error analysis ('bound' mode)
+def infer_mag(ex, p, num, den):
+    """smallest power of two 2^k (k in 0..240) for which |num/den| <= 2^k is provable from the path condition (binary search;
+    every probe is a solver query; the proved bound is recorded as an obligation so that it shows up in the evidence)"""
+    if isinstance(num, int):
+        k = 0
+        while abs(num) > (2 ** k) * den:
+            k += 1
+        return Fraction(2 ** k)
+    cache = p.ghost.setdefault('mag_cache', {})
+    key = (num.get_id(), den)
+    if key in cache:
+        return cache[key]
+
+    def provable(k):
+        s = z3.Solver()
+        s.set('timeout', 4000)
+        for c in p.pc:
+            s.add(c)
+        b = (2 ** k) * den
+        s.add(z3.Or(num > b, num < -b))
+        return s.check() == z3.unsat
+    lo, hi = 0, 240
+    if not provable(hi):
+        raise EngineError('mpf error analysis: no magnitude bound below 2^240 is provable for an intermediate value')
+    while lo < hi:
+        mid = (lo + hi) // 2
+        if provable(mid):
+            hi = mid
+        else:
+            lo = mid + 1
+    # a little head-room keeps the bound stable when the solver's budget is tight on another machine
+    k = min(hi + 2, 240)
+    ex.oblige(p, 'mpf-magnitude', z3.And(num <= (2 ** k) * den, num >= -((2 ** k) * den)), f'|value|<=2^{k}')
+    cache = dict(cache)
+    cache[key] = Fraction(2 ** k)
+    p.ghost['mag_cache'] = cache
+    return cache[key]
+
+
+def mag_of(ex, p, v):
+    if v.mag is not None:
+        return v.mag
+    m = infer_mag(ex, p, v.num, v.den)
+    v.mag = m
+    return m
+
+
+def bound_result(ex, p, opn, x, y, num, den, node):
+    """standard model of rounding: computed = exact(op on the computed operands) * (1 + d), |d| <= 2^-prec.
+    err bounds |computed - ideal|, mag bounds |ideal|."""
+    u = Fraction(1, 2 ** prec(ex))
+    ex_, ey_ = (x.err or Fraction(0)), (y.err or Fraction(0))
+    if x.err is None or y.err is None:
+        raise EngineError('mpf error analysis: operand without an error bound')
+    if opn in ('Add', 'Sub'):
+        e_in = ex_ + ey_
+    elif opn == 'Mult':
+        e_in = Fraction(0)
+        if ex_ or ey_:
+            bx, by = mag_of(ex, p, x), mag_of(ex, p, y)
+            e_in = bx * ey_ + by * ex_ + ex_ * ey_
+    elif opn == 'Div':
+        if ey_:
+            raise EngineError('mpf error analysis: division by an inexact value')
+        c = Fraction(y.num, y.den) if isinstance(y.num, int) else None
+        if c is None or c == 0:
+            raise EngineError('mpf error analysis: division by a symbolic value')
+        e_in = ex_ / abs(c)
+    else:
+        raise EngineError(f'mpf error analysis: operator {opn}')
+    mag = infer_mag(ex, p, num, den)
+    err = e_in + u * (mag + e_in)
+    ex.ctx.assume_note('mpmath standard model: each operation returns the exact result of its (computed) operands rounded to 103 bits, '
+                       'relative error <= 2^-103; forward error bounds are propagated and magnitude bounds are proved (obligations mpf-magnitude)')
+    return VMpf(num, den, err=err, mag=mag)
 
 
 def real_result(ex, p, opn, x, y, node):
